@@ -18,6 +18,9 @@ Clauses (names used in Fail.clause)
                             CPython spec (regular package, namespace, plain module) dictates;
   listing-order-independent the tree (modules, files, flags, member names) is the same under every injected order;
   request-form-independent  ... and the same when requested as Path(dir) or str(dir) instead of "p".
+  (history:*)               the first four clauses again on ONE loader: `p` by name with the first search path left out,
+                            then that path put in force (insert_search_path / append_search_path / request by the path
+                            of its `p` directory), then `p` by name again; judged for the search paths then in force.
 """
 
 from __future__ import annotations
@@ -59,6 +62,9 @@ ASSUMPTIONS = [
     "a .pyi-only module is 'stub-only' (accepted) unless CPython imports a source module at that very dotted name",
     "member order inside a module is not part of 'the resulting tree' (dictionary order follows load order); the order of the "
     "directory list of a namespace package is",
+    "search-path directory names are character prefixes of one another (sp, sp1, sp10, sp1x, sp10y) in drawn order",
+    "history clause: the loader's modules/lines collections are replaced before each request (loading one name twice into one collection "
+    "is not judged); an inserted/appended search path is not scanned for .pth files by either side",
     "no symlinks, module bodies are `x = 1`; non-identifier / keyword / non-ASCII file and directory names are generated below the top level "
     "and judged exactly like any other name (CPython's finders and pkgutil's walker accept every name without a dot); the requested "
     "top-level name itself is always `p`",
@@ -277,10 +283,7 @@ def check_case(case) -> list[Fail]:
     with fs.case_dir(_TMP_BASE[0]) as root:
         paths = fs.materialise(layout, root)
         eff = fs.CPythonView.effective_search_paths(paths)
-        view = fs.CPythonView(eff)
-        view.pkg_style_top = _pkg_style_top(view)
-        if view.pkg_style_top:
-            view = fs.CPythonView(eff, pkg_style_top=True)
+        view = _make_view(eff)
         base = griffe_load(TOP, paths, "sorted", root)
         add(judge(base, view, root))
         _OUTCOME[:] = _outcome(view, base)
@@ -306,7 +309,64 @@ def check_case(case) -> list[Fail]:
                     if t != base:
                         how = "Path" if isinstance(request, Path) else "str"
                         add([Fail("request-form-independent", f"{how}:{_diff_kind(base, t)}", f"tree requested as {TOP!r} differs from tree requested as {how}({_short(d, root)!r}): {_diff(base, t)}")])
+        # clause 7: the same on ONE loader with a history (search paths change between requests)
+        if case.get("hist") and len(paths) >= 2:
+            add(_history(case["hist"], paths, root))
     return fails
+
+
+def _make_view(eff: list[str]) -> fs.CPythonView:
+    view = fs.CPythonView(eff)
+    if _pkg_style_top(view):
+        view = fs.CPythonView(eff, pkg_style_top=True)
+    return view
+
+
+def _history(op: str, paths: list[Path], root: Path) -> list[Fail]:
+    """One GriffeLoader, three requests: `p` by name with the first search path left out; then the first search path
+    is put in force (finder.insert_search_path(0, .) / finder.append_search_path(.) / a request by the path of its `p`
+    directory, which lies outside the search paths); then `p` by name again. Every answer is judged by the CPython
+    oracle for the search paths in force at that moment (kept here independently of the finder's own list). The
+    loader's collections are replaced before each request: loading one name twice into one collection is not the subject."""
+    import griffe
+
+    first, later = paths[0], paths[1:]
+    loader = griffe.GriffeLoader(search_paths=list(later), allow_inspection=False)
+    in_force = fs.CPythonView.effective_search_paths(later)
+    out: list[Fail] = []
+
+    def request(req, label: str) -> None:
+        loader.modules_collection = griffe.ModulesCollection()
+        loader.lines_collection = griffe.LinesCollection()
+        with fs.listing_order("sorted"):
+            try:
+                top = call("total", loader.load, req, allowed=(ModuleNotFoundError,), what=f"loader.load({_short(req, root)!r}) as {label} on one loader")
+                tree = fs.griffe_tree(top, root)
+            except ModuleNotFoundError:
+                tree = None
+        shown = [_short(x, root) for x in in_force]
+        for f in judge(tree, _make_view(list(in_force)), root):
+            out.append(Fail(f.clause, f"history:{f.kind}", f"[one loader, {label}, search paths in force {shown}] {f.message}", f.detail))
+
+    request(TOP, "first request by name")
+    if op == "path" and not (first / TOP).is_dir():
+        op = "insert"
+    if op == "append":
+        loader.finder.append_search_path(first)
+        if str(first) not in in_force:
+            in_force.append(str(first))
+        how = "finder.append_search_path"
+    else:
+        if str(first) not in in_force:
+            in_force.insert(0, str(first))
+        if op == "insert":
+            loader.finder.insert_search_path(0, first)
+            how = "finder.insert_search_path(0, .)"
+        else:
+            how = "a request by path outside the search paths"
+            request(first / TOP, f"request by the path {_short(first / TOP, root)}")
+    request(TOP, f"request by name after {how}")
+    return out
 
 
 def _outcome(view: fs.CPythonView, tree: dict | None) -> list[str]:
@@ -388,6 +448,7 @@ def strategy(ctx):
             "layout": fs.layouts(max_depth=3),
             "orders": st.tuples(st.sampled_from(["reversed", "reversed", 0, 1]), st.integers(0, 7)).map(list),
             "req": st.integers(0, 2),
+            "hist": st.sampled_from(["insert", "append", "path", "path"]),
         }
     ).map(steer)
 
